@@ -168,6 +168,7 @@ func runProp(r *chk.Run, prop string) {
 	agg(r, prop, jobs, results)
 	if prop == "C05" || prop == "C06" {
 		conformance(r, prop, jobs, results)
+		conformanceTCP(r, prop, jobs, results)
 	}
 	if prop == "C05" {
 		racePass(r, jobs)
